@@ -2,6 +2,7 @@
    they contain; every word of the keyword dictionaries, in any letter case and delimited context,
    is ONE token of the type given by the first dictionary that lists it (or by an earlier dedicated
    lexical rule); a word in no dictionary is a Name. *)
+From SqlModel.Gen Require LexPins.
 From SqlModel Require Import Base PyStr Re MinWidth Lexer CaseDefs WordsDefs RegionDefs Regions
      RegionExamples NameWordsDefs.
 From SqlModel.Gen Require Import Atoms CaseTabs KwTabs Rules.
@@ -189,3 +190,9 @@ Theorem C14_nonwords_dedicated_refuted :
             /\ cur_lex s = Ok [(T_Order, s)].
 Proof. exact NameWordsInst.C14_nonwords_dedicated_refuted. Qed.
 Print Assumptions C14_nonwords_dedicated_refuted.
+
+(* the hand-modelled scan loop / keyword lookup / class-level state of sqlparse/lexer.py still have the pinned shape
+   (tools/regen/gen_lexpins.py fails closed otherwise and this file no longer compiles) *)
+Example C14_lexer_shape : SqlModel.Gen.LexPins.lexer_shape_checked = true.
+Proof. reflexivity. Qed.
+
